@@ -148,7 +148,8 @@ def strategy(tier):
         "blocklimit": st.sampled_from([1, 2, 4, 8]),
         "delete": st.lists(st.integers(0, 200), max_size=6),
         "optimize": st.just(False),
-        "schema": st.just({"t_boost": 1.0}),
+        # (1.1 and 0.3 are not 32-bit floats: the stored weights are rounded, the bounds must follow)
+        "schema": st.fixed_dictionaries({"t_boost": st.sampled_from([1.0, 1.0, 2.0, 1.1, 0.3])}),
         "weighting": st.sampled_from([{"kind": "bm25f", "B": 0.75, "K1": 1.2, "t_B": None}, {"kind": "tfidf"},
                                       {"kind": "frequency"}]),
         "query": qspan,
